@@ -385,6 +385,75 @@ def process_stage(run, count):
     run.notes.append("process stage: %d scripted calls x 3 processes (PYTHONHASHSEED 0, 1, 4242; the third with polluting earlier calls)" % (4 * count))
 
 
+def cold_start_stage(run, cases, points):
+    """The first calls a process makes, made concurrently (harness/child_first.py): for every case the two calls run one after
+    another here (`base`), and in `points` fresh processes each as two threads, thread 0 pre-empted after k executed lines of
+    library code (k spread over the whole call), thread 1 running to completion in between (`same`)."""
+    import subprocess
+    import sys as _sys
+    from concurrent.futures import ThreadPoolExecutor
+
+    import child_first
+    import sched
+
+    here = os.path.dirname(os.path.abspath(__file__))
+    sess = Session()
+    jobs = []
+    for case in range(cases):
+        kind, params, g, calls = child_first.script(run.seed, case)
+        # how many lines does thread 0 execute?  (a dry run in its own process, unconstrained)
+        out = os.path.join(run.wd, "cold-%d-dry.json" % case)
+        subprocess.run([_sys.executable, os.path.join(here, "child_first.py"), str(run.seed), str(case), "-1", out], check=True,
+                       env=dict(os.environ, PYTHONHASHSEED="0"))
+        total = json.load(open(out))["lines"]
+        rng = run.sub_rng("cold/%d" % case)
+        ks = sorted(set([0, 1, 2] + [rng.randrange(0, max(total, 1)) for _ in range(points)]))
+        for k in ks:
+            jobs.append((case, k, os.path.join(run.wd, "cold-%d-%d.json" % (case, k))))
+
+    def one(job):
+        case, k, out = job
+        r = subprocess.run([_sys.executable, os.path.join(here, "child_first.py"), str(run.seed), str(case), str(k), out],
+                           capture_output=True, text=True, env=dict(os.environ, PYTHONHASHSEED="0"))
+        if r.returncode != 0:
+            raise MachineryError("cold-start child failed: " + r.stderr[-1500:])
+        return job
+
+    with ThreadPoolExecutor(max_workers=tlc.NCPU) as ex:
+        done = list(ex.map(one, jobs))
+    merged = []
+    log = []
+    tid = 0
+    for case, k, out in done:
+        kind, params, g, calls = child_first.script(run.seed, case)
+        d = json.load(open(out))
+        kids = [e for e in d["events"] if e.get("group")]
+        # the same calls, one after another, in this (long-running, warmed-up) process
+        s2 = Session()
+        s2.reset()
+        fresh = s2.model(kind, gamma=g, **params)
+        for ci, c in enumerate(calls):
+            teams = drivers.make_teams(fresh, c["vals"])
+            if c["op"] == "rate":
+                s2.rate(fresh, teams, **c["kw"])
+            else:
+                s2.predict(c["op"], fresh, teams)
+        bases = [e for e in s2.events if e["op"] in ("rate", "win", "draw", "rank")]
+        tid += 1
+        merged.append({"op": "reset", "tid": tid})
+        for ci, b in enumerate(bases):
+            gid = "C14:cold%d.%d.%d" % (case, k, ci)
+            b = dict(b, tid=tid, group=gid, role="base", gprop="C14")
+            merged.append(b)
+            for e in kids:
+                if e["group"].endswith(".%d" % ci):
+                    merged.append(dict(shift_refs(e, 100000, 1000), tid=tid, group=gid, role="same", gprop="C14"))
+        log.extend(d["log"])
+    validate_thread_log(run, log, "cold-start-thread-events")
+    validate_events(run, merged, {"C14"}, "cold-start")
+    run.notes.append("cold start: %d cases x sampled switch points = %d fresh processes, line-level pre-emption" % (cases, len(jobs)))
+
+
 def sequences_stage(run, want):
     """Behaviours of the state machine replayed on live objects: random walks (and exhaustive depth 2 in thorough)."""
     kinds = ALL_KINDS if run.tier == "thorough" else [ALL_KINDS[(run.seed + 1) % 5], ALL_KINDS[(run.seed + 3) % 5]]
@@ -411,6 +480,7 @@ def plan_C14(run):
     if pairs:
         threads_stage(run, 12, pairs)
     process_stage(run, q(run, 120, 2500))
+    cold_start_stage(run, q(run, 20, 60), q(run, 6, 20))
     n = q(run, 150, 3000)
     campaign(run, "history-groups", {"C14"}, lambda s, r: drivers.same_groups(s, r, n))
     run.require_classes(["group:C14:same"], "history-groups")
